@@ -407,6 +407,9 @@ func Main(m *testing.M, prop string) {
 	}
 	statsPath = os.Getenv("VERIF_STATS")
 	journalPath = os.Getenv("VERIF_JOURNAL")
+	if n, err := strconv.Atoi(os.Getenv("VERIF_DEFAULT_HANG")); err == nil && n > 0 {
+		defaultHang = time.Duration(n) * time.Second
+	}
 	replayDir = os.Getenv("VERIF_REPLAY_DIR")
 	knownPath = os.Getenv("VERIF_KNOWN")
 	if knownPath == "" {
@@ -552,11 +555,18 @@ func trimStack(s string) string {
 	return strings.Join(lines, "\n")
 }
 
+// defaultHang is the per-case watchdog of checks that do not set one (0 = none).
+var defaultHang time.Duration
+
 func (c *Ctx) exec() (err error) {
 	current.Store(c)
 	var timer *time.Timer
-	if c.ck.Hang > 0 {
-		timer = time.AfterFunc(c.ck.Hang, func() { hangExit(c) })
+	hang := c.ck.Hang
+	if hang == 0 {
+		hang = defaultHang // set by the driver for properties whose cases are pure computation
+	}
+	if hang > 0 {
+		timer = time.AfterFunc(hang, func() { c.ck.Hang = hang; hangExit(c) })
 	}
 	defer func() {
 		if timer != nil {
